@@ -1,4 +1,5 @@
 import OvniModel.Generated.Consts
+import OvniModel.Emu.Basic
 
 /-!
 # Metadata and model gates of the emulator, as decision logic (C12)
@@ -45,8 +46,6 @@ inductive Cls
   | json | version | part | loom | pid | appid | tid | finished | lib | cpus | require
   | unknownStream | modelUnregistered | modelDisabled | payload
 deriving DecidableEq, Repr
-
-deriving instance DecidableEq for Except
 
 /-- Per-stream checks up to `create_thread` (only for `part = "thread"`; any
     other string makes the stream "unknown": it is kept but has no thread). -/
